@@ -35,8 +35,8 @@ type identityDictionary struct {
 	dict map[string]resolvedIdentity
 	// owners lists, for every module and submodule, the modules its
 	// identities are filed under: the module itself, or the modules that
-	// include the submodule (directly or through other submodules),
-	// ordered by full name.
+	// include the submodule (directly or through other submodules): the
+	// latest revision first, then the others by full name.
 	owners map[*Module][]*Module
 }
 
@@ -50,6 +50,9 @@ func identityKey(owner *Module, name string) string {
 type resolvedIdentity struct {
 	Module   *Module
 	Identity *Identity
+	// owner is the module the identity is filed under: Module itself, or
+	// the module that includes the submodule Module.
+	owner *Module
 }
 
 // isEmpty determines whether the resolvedIdentity struct value is populated.
@@ -65,6 +68,7 @@ func newResolvedIdentity(owner, m *Module, i *Identity) (string, *resolvedIdenti
 	r := &resolvedIdentity{
 		Module:   m,
 		Identity: i,
+		owner:    owner,
 	}
 	return identityKey(owner, i.Name), r
 }
@@ -108,6 +112,14 @@ func addChildren(r *Identity, ids []*Identity) []*Identity {
 // findIdentityBase returns the resolved identity that is corresponds to the
 // baseStr string in the context of the module/submodule mod.
 func (mod *Module) findIdentityBase(baseStr string) (*resolvedIdentity, []error) {
+	return mod.findIdentityBaseIn(nil, baseStr)
+}
+
+// findIdentityBaseIn is findIdentityBase for a statement of the submodule mod
+// read as part of the module owner, one of the modules that include mod:
+// local names are looked up in owner first.  With a nil owner, and for a
+// module, it is findIdentityBase.
+func (mod *Module) findIdentityBaseIn(owner *Module, baseStr string) (*resolvedIdentity, []error) {
 	var base resolvedIdentity
 	var ok bool
 	var errs []error
@@ -121,7 +133,12 @@ func (mod *Module) findIdentityBase(baseStr string) (*resolvedIdentity, []error)
 	case "", rootPrefix:
 		// This is a local identity which is defined within the current
 		// module
-		base, ok = typeDict.identities.find(mod, baseName)
+		if owner != nil {
+			base, ok = typeDict.identities.dict[identityKey(owner, baseName)]
+		}
+		if !ok {
+			base, ok = typeDict.identities.find(mod, baseName)
+		}
 		if !ok {
 			owner := module(mod)
 			if owner == nil {
@@ -239,7 +256,9 @@ func (ms *Modules) resolveIdentities() []error {
 
 			root := RootNode(i.Identity)
 			for _, b := range i.Identity.Base {
-				base, baseErr := root.findIdentityBase(b.asString())
+				// An identity of a submodule that several revisions of
+				// its module include is filed once under each of them.
+				base, baseErr := root.findIdentityBaseIn(i.owner, b.asString())
 
 				if baseErr != nil {
 					errs = append(errs, baseErr...)
